@@ -273,3 +273,35 @@ Theorem C14_io_errors_checked :
 Proof. exact C14_skel_fail.all_io_checked. Qed.
 
 Print Assumptions C14_io_errors_checked.
+
+(* ================= phase 5: ALL histories with failed writes =================
+   Rd s m D T (Proofs/C14_dirty.v) weakens R: D = the chunks whose last write FAILED (no content claim), T = the
+   chunks whose timestamp slot may be newer in the file than in memory; the tables alone (M) keep every run
+   marked used and pairwise disjoint, and the file header always equals the in-memory table.  frun runs a
+   history of reads and of writes on a medium that fails the fa-th I/O call of that write (any fa, any
+   short-write length sh; fa beyond the last call = a successful write) next to the specification: a map,
+   updated by writes that succeeded, and the set of chunks whose last write failed. *)
+From GoMC Require Proofs.C14_dirty.
+Theorem C14_refinement_failing_medium : forall ops s m D T s' m' D' T' l,
+  C14_dirty.Rd s m D T -> Forall C14_dirty.fop_ok ops -> C14_dirty.frun s m D T ops = (s', m', D', T', l) ->
+  C14_dirty.Rd s' m' D' T' /\
+  Forall (fun p => match p with Some (got, want) => got = want | None => True end) l.
+Proof. exact C14_dirty.frun_correct. Qed.
+
+Theorem C14_failing_medium_fresh : C14_dirty.Rd create aempty C14_dirty.nnone C14_dirty.nnone.
+Proof. exact C14_dirty.Rd_create. Qed.
+
+(* one write, any failing call: the chunk is clean again after a success, dirty after an error *)
+Theorem C14_write_failing_medium : forall fa sh s m D T x z d now sF wsF r,
+  C14_dirty.Rd s m D T -> x < 32 -> z < 32 -> write_sector_fail fa sh s x z d now = (sF, wsF, r) ->
+  C14_dirty.Rd sF (C14_dirty.upd_m m (idx x z) d r) (C14_dirty.upd_D D (idx x z) r) (C14_dirty.upd_T T (idx x z) r).
+Proof. exact C14_dirty.write_fail_Rd. Qed.
+
+(* Load + ReadSector are total on ANY file: the interpretation of the translated Load never gets stuck *)
+Theorem C14_load_total : forall f, exists r, C14_skel_rw.interp_load f = Some r.
+Proof. intros f. exists (load f). exact (C14_skel_rw.interp_load_eq f). Qed.
+
+Print Assumptions C14_refinement_failing_medium.
+Print Assumptions C14_failing_medium_fresh.
+Print Assumptions C14_write_failing_medium.
+Print Assumptions C14_load_total.
